@@ -312,7 +312,9 @@ PROPS = {
     },
     'C13': {
         'props_file': 'props/C13.v',
-        'domains': [{'name': 'loc-fuzz', 'quick': 300, 'thorough': 20000, 'thorough_shards': 10}],
+        'domains': [{'name': 'loc-fuzz', 'quick': 300, 'thorough': 20000, 'thorough_shards': 10},
+                    {'name': 'loc-cascade', 'quick': 120, 'thorough': 2000, 'thorough_shards': 4},
+                    {'name': 'cron-sys', 'ok_is_spec': True, 'quick': 48, 'thorough': 600, 'thorough_shards': 5}],
         'spec_ops': None,
         'corr': 'corr.loc (CorrLoc.check_loc) on the fuzz profile: every case runs in a child process under a time limit and a small maximum stack, journaling the index of the operation it is about to execute; '
                 'a crash, stack overflow or hang is attributed to that operation and judged as a specification failure (never excused by ambiguity); after every unusual input a canary add/get/search on the same location is compared with the model',
